@@ -141,9 +141,10 @@ def times_events(g):
 
 
 @st.composite
-def grids(draw, coal_rows, m, regular=None):
+def grids(draw, coal_rows, m, regular=None, samp=()):
     """m-1 increasing grid points (theta has m entries), none equal to a coalescent time of any
     row; points before the first coalescence and beyond the root are drawn on purpose.
+    positive sampling times (`samp`) are used as grid points now and then (harmless coincidence).
     returns {"grid": [...]} or {"cutoff": c} for the regular grid linspace(0, c, m)[1:]"""
     allc = sorted(set(c for row in coal_rows for c in row))
     root = allc[-1]
@@ -163,13 +164,16 @@ def grids(draw, coal_rows, m, regular=None):
             cutoff *= 1.0 + 1.0 / 1024
         return {"cutoff": cutoff}
     marks = [0.0] + allc
+    stimes = sorted(set(float(t) for t in samp if t > 0))
     pts = set()
     tries = 0
     while len(pts) < m - 1 and tries < 10 * m:
         tries += 1
         where = draw(st.integers(0, len(marks) + 1))
         f = draw(fl(0.1, 0.9))
-        if where >= len(marks) - 1:  # beyond the root (twice as likely as any one gap)
+        if stimes and where == 0 and f < 0.5:
+            p = stimes[draw(st.integers(0, len(stimes) - 1))]
+        elif where >= len(marks) - 1:  # beyond the root (twice as likely as any one gap)
             p = root * (1.0 + 2.0 * f) + (1e-3 if root == 0 else 0.0)
         else:
             p = marks[where] + f * (marks[where + 1] - marks[where])
